@@ -354,6 +354,56 @@ def work_images(job):
     return r
 
 
+SPECIAL_KEYS = ['Language', 'Date', 'UUID', 'Author', 'Title', 'Copyright', 'Keywords', 'CSS', 'Quotes Language', 'BibTeX', 'Biblio Style', 'LaTeX Mode', 'LaTeX Input', 'LaTeX Config',
+                'Transclude Base', 'Base Header Level', 'EPUB Header Level', 'Affiliation', 'Subtitle', 'Revision', 'My Own Key', 'lang', 'xml:lang']
+KEY_VALUES = ['d"e', 'a<b', 'x&y', "it's", 'p>q', ']]>', '<!--', '&#', '&bogus;x', 'a"b<c&d>e', '"', '<', '&', 'en"><x', 'é"ü', '2020-01-01" x="', 'plain']
+
+
+def work_metakeys(job):
+    """metadata keys that the writers treat specially (language, date, uuid, author, css ...) with values that hold XML-special characters:
+    each writer copies them into its own elements and attributes (<html lang=...>, dc:language, dcterms:modified, office:meta ...).
+    Keys documented as raw passthrough (HTML Header, XHTML Header, ODF Header, HTML Footer) are not used here."""
+    seed, lo, hi = job
+    r = core.JobResult()
+    with core.Session(r) as s:
+        for i in range(lo, hi):
+            rng = core.job_rng(seed, ID, 'metakeys', i)
+            key = SPECIAL_KEYS[i % len(SPECIAL_KEYS)]
+            val = rng.choice(KEY_VALUES)
+            others = ''.join('%s: %s\n' % (k, rng.choice(['plain', 'Some Value', '2021'])) for k in rng.sample(SPECIAL_KEYS, rng.randint(0, 2)) if k != key)
+            text = ('Title: Doc\n' if key != 'Title' and rng.random() < 0.5 else '') + others + '%s: %s\n\n# Head #\n\nBody text.\n' % (key, val)
+            src = text.encode('utf-8')
+            ext = rng.choice([D.EXT_CLI, D.EXT_CLI | D.EXT['COMPLETE'], D.EXT_CLI & ~D.EXT['SMART'], D.EXT_CLI | D.EXT['SNIPPET']])
+            lang = rng.choice(gen.LANGS)
+            for fname in ('epub', 'odt', 'fodt', 'opml', 'itmz'):
+                fmt = D.FMT[fname]
+                rq = D.req_to_json('asan', 'CONVERT', fmt, ext, lang, 1 | (1 << 4), [src])
+                rep = s.call('asan', 'CONVERT', fmt, ext, lang, 1 | (1 << 4), [src], crash_is_violation=False)
+                r.evaluations += 1
+                if rep is None or rep.status:
+                    r.stats['crashed/exited (C01/C02 territory)'] += 1
+                    continue
+                if fname in MEMBERS:
+                    try:
+                        z = zipfile.ZipFile(io.BytesIO(rep.out))
+                        docs = [('%s:%s' % (fname, n.split('/')[-1]), z.read(n)) for n in z.namelist() if n.endswith(MEMBERS[fname])]
+                    except Exception:
+                        r.stats['package unreadable (C09 territory)'] += 1
+                        continue
+                else:
+                    docs = [(fname, rep.out)]
+                for name, data in docs:
+                    r.stats['metakey_xml_documents_parsed'] += 1
+                    e = wellformed(data)
+                    if e is not None:
+                        off = getattr(e, 'byte_index', 0)
+                        r.violate('not-wellformed:%s:metadata-value:%s' % (name, key.lower().replace(' ', '')), '%s is not well-formed XML: %s at line %d (metadata %s: %s)' % (name, expat.ErrorString(e.code), e.lineno, key, val),
+                                  dict(requests=[rq], member=name), 'around: %s\nsource: %s' % (core.show(data[max(0, off - 100):off + 40], 240), core.show(src, 300)))
+            r.distinct.add(core.h64('mk', src, ext, lang))
+            r.sets['special_metadata_keys'].add(key)
+    return r
+
+
 def main():
     chk = core.Check(ID)
     n = chk.scale(12000, 300000)
@@ -367,4 +417,6 @@ def main():
     chk.run_jobs(work_rawfilter, [(chk.seed, lo, min(nr, lo + 40)) for lo in range(0, nr, 40)])
     ni = chk.scale(1600, 30000)
     chk.run_jobs(work_images, [(chk.seed, lo, min(ni, lo + 50)) for lo in range(0, ni, 50)])
+    nk = chk.scale(1150, 23000)
+    chk.run_jobs(work_metakeys, [(chk.seed, lo, min(nk, lo + 46)) for lo in range(0, nk, 46)])
     return chk.finish()
